@@ -120,6 +120,39 @@ def canon(obj, skip_versions: bool = False):
     return ('obj', type(obj).__name__, tuple(items))
 
 
+def read_law(obj, path: str = '') -> list:
+    """Problems with reading members: a value that is stored must be the value seen through the property.
+
+    (canon() reads members through the properties, on both sides of every comparison; this is the independent check
+    that reading itself does not replace stored values - by implied values, defaults or anything else.)
+    """
+    out = []
+    if not isinstance(obj, (XMLTypeBase, ContainerBase)):
+        return out
+    for name, prop in obj.sorted_container_properties():
+        if isinstance(prop, xs.CurrentTimestampAttributeProperty) or not hasattr(prop, 'get_actual_value'):
+            continue
+        actual = prop.get_actual_value(obj)
+        if actual is None:
+            continue
+        seen = getattr(obj, name)
+        same = seen is actual
+        if not same and not isinstance(actual, (XMLTypeBase, ContainerBase, list)):
+            try:
+                same = type(seen) is type(actual) and seen == actual
+            except Exception:  # noqa: BLE001
+                same = False
+        if not same:
+            out.append(f'{path}.{name}: stored {actual!r:.80} but the property reads {seen!r:.80}')
+            continue
+        if isinstance(actual, (XMLTypeBase, ContainerBase)):
+            out += read_law(actual, f'{path}.{name}')
+        elif isinstance(actual, list):
+            for i, item in enumerate(actual):
+                out += read_law(item, f'{path}.{name}[{i}]')
+    return out
+
+
 def diff(a, b, path='') -> list:
     """List of (path, a, b) for the places where two canonical forms differ (first few)."""
     out = []
